@@ -203,7 +203,7 @@ theorem witness_run :
 theorem created_counterexample : ¬ created_full := by
   intro h
   have hm : (run witness).head? = some
-      { version := 3, k := 2, nextRowId := 6, maxFragId := some 2
+      { version := 3, k := 2, nextRowId := 6, maxFragId := some 2, epoch := 1
         frags := [⟨0, [⟨[some 1, some 10], 0, 1, 1, false⟩, ⟨[some 2, some 20], 1, 1, 1, false⟩,
                       ⟨[some 3, some 30], 2, 1, 1, false⟩]⟩,
                   ⟨1, [⟨[some 4, some 40], 3, 2, 2, true⟩, ⟨[some 5, some 50], 4, 2, 2, false⟩,
@@ -258,6 +258,31 @@ theorem C17_partial (ops : List Op) (hco : coherentFrom lookupOk [] ops = true) 
     (∀ m h, run ops = m :: h → ∀ b e, b < e →
       insertedRows m b e = truthInserted ops m b e ∧ updatedRows m b e = truthUpdatedRows ops m b e) :=
   ⟨created_partial ops hco, updated_correct ops, fun m h hr b e hbe => delta_partial ops hco m h hr b e hbe⟩
+
+/-! ## appends through a stale handle (rebased commits) -/
+
+/-- an append rebased from any earlier read version publishes exactly what a fresh append publishes: its rows are stamped
+    with the version actually published (latest + 1), never with `read_version + 1` -/
+theorem appendVia_eq_append (m : Manifest) (h : Hist) (rv f : Nat) (rows : List Row)
+    (hok : (step (m :: h) (.appendVia rv f rows)).2 = .ok) :
+    (step (m :: h) (.appendVia rv f rows)).1 = (step (m :: h) (.append f rows)).1 := by
+  simp only [step] at hok ⊢
+  (repeat' split at hok) <;> first | cases hok | skip
+  rename_i h1 h2 h3 h4
+  have h1' : ¬(rv = 0 ∨ m.version < rv) := by simpa using h1
+  simp [h1', h2, h3, h4]
+
+/-- two writers at version 1: the second append is committed as version 3 and its rows say so -/
+def staleWitness : List Op :=
+  [.create 10 2 [[some 1, some 10]], .append 10 [[some 2, some 20]], .appendVia 1 10 [[some 3, some 30]]]
+
+example : (run staleWitness).head?.map (fun m => (m.version, (live m).map fun r => (r.rid, r.created, r.updated)))
+    = some (3, [(0, 1, 1), (1, 2, 2), (2, 3, 3)]) := by decide
+example : staleWitness.all noUpdateArm = true := by decide
+example : (run staleWitness).head?.map (fun m => (insertedRows m 2 3).map (·.rid)) = some [2] := by decide
+/-- an Overwrite committed after the read version makes the rebase fail, nothing is published -/
+example : (step (run [.create 10 2 [[some 1, some 10]], .overwrite 10 [[some 5, some 50]]]) (.appendVia 1 10 [[some 3, some 30]])).2
+    = .err "conflict_incompatible" := by decide
 
 /-! ## non-vacuity -/
 
